@@ -30,6 +30,7 @@ TRUSTED_BASE = [
     "extraction: Require Extraction + ExtrOcamlBasic only; no Extract Constant of our own; coq/C08/driver.ml supplies the hash as the identity on triples and the C-compiler outcome (code id >= 900 fails)",
     "harness/C08/replay.py (source/option generator, --cc wrapper script, os.utime ageing, stat-based observation of writes), gcc and clang, OCaml 4.13.1",
     "modelled rather than verified: ccompiler.lua/runner.lua are mirrored by hand in coq/C08/Model.v; the tie is the history replay run on every check",
+    "the five policy facts the main theorem C08_cache_fresh rests on are regex-scraped from ccompiler.lua (Gen.v) and checked behaviourally by replaying the three former defect histories (same-second in real time) on every run",
 ]
 ASSUMPTIONS = [
     "observable behaviour of a binary is a function of (generated C code, compiler command, compiler identity): edits that change behaviour without changing any of them (an edited C header or extra C file) are outside the model",
@@ -40,7 +41,7 @@ ASSUMPTIONS = [
 
 TPS = 10
 W_SAME_SECOND = "R:0:-:0:0:0:0:0:0 R:0:-:1:0:0:0:0:0"
-W_NOHEAD = "R:0:-:0:0:0:1:0:0 A:30 R:0:-:0:1:0:1:0:0"
+W_NOHEAD = "R:0:-:0:0:0:1:0:11 A:30 R:0:-:0:1:0:1:0:0"     # first build crosses a second boundary (matters under <)
 W_SHARED_OUT = "R:0:0:0:0:0:0:0:0 A:30 R:1:0:1:0:0:0:0:0 A:30 R:0:0:0:0:0:0:0:0"
 WITNESSES = [("same-second", W_SAME_SECOND), ("nocheading", W_NOHEAD), ("shared-output", W_SHARED_OUT)]
 
@@ -338,8 +339,9 @@ def gen_history(rng, flavour):
         if rng.random() < .05:
             code = 900 + cur["code"]
         kind = "I" if rng.random() < .07 else "C" if rng.random() < .06 else "R"
-        toks.append("%s:%d:%s:%d:%d:%d:%d:%d:0" % (kind, cur["slot"], "-" if out is None else out, code, cur["cmd"],
-                                                   cur["cc"], int(cur["nohead"]), int(cur["nocache"])))
+        toks.append("%s:%d:%s:%d:%d:%d:%d:%d:%d" % (kind, cur["slot"], "-" if out is None else out, code, cur["cmd"],
+                                                    cur["cc"], int(cur["nohead"]), int(cur["nocache"]),
+                                                    rng.choice([0, 0, 0, 0, 11, 25])))   # builds that cross a second boundary
     while toks and toks[-1][0] == "A":
         toks.pop()
     if sum(1 for t in toks if t[0] != "A") < 2:
@@ -419,9 +421,20 @@ def correspond(ctx):
         elif res:
             ctx.note("witness %s: the intended timing could not be set up in %d tries" % (name, res["tries"]))
         else:
-            # the model (scraped policy) says this history is fresh: replay it once all the same
-            recs, obs = rp.replay(interp, vlib.REPO, os.path.join(ctx.work, "wit-%s-%d" % (name, os.getpid())), toks)
-            n_inv += len(recs)
+            # the model (scraped policy) says this history is fresh: replay it all the same; for the
+            # same-second witness the setup (not the verdict) is retried until the binary of the first
+            # run and the C file of the second run carry the same second
+            for attempt in range(8):
+                wait_second_start()
+                recs, obs = rp.replay(interp, vlib.REPO, os.path.join(ctx.work, "wit-%s-%d" % (name, os.getpid())), toks)
+                n_inv += len(recs)
+                wit[name]["tries"] = attempt + 1
+                if name != "same-second" or (len(recs) == 2 and recs[0]["bin_sec"] is not None and recs[0]["bin_sec"] == recs[1]["cfile_sec"]):
+                    wit[name]["setup_ok"] = True
+                    break
+            else:
+                wit[name]["setup_ok"] = False
+                ctx.note("witness %s: the intended timing could not be set up" % name)
             mres = model.run([obs])[0]
             st = [i for i, r in enumerate(recs) if r["reference"] is not None and r["outcome"] != r["reference"]]
             wit[name]["implementation_stale"] = bool(st)
@@ -527,7 +540,13 @@ def correspond(ctx):
                           "stale artefact in a generated history whose shrunk form %s could not be reproduced (setup_ok=%s)" % (k, res["setup_ok"]),
                           detail={"observed_history": " ".join(obs), "shrunk": k})
     # every confirmed-stale canonical history is reported (known findings match on these keys)
+    full_now = bool(genpol) and (not genpol.get("p_le") or genpol.get("p_del_rewrite")) and not genpol.get("p_reuse_out") \
+        and not genpol.get("p_nohead_cache") and genpol.get("p_head_hash") and genpol.get("p_size_chk")
     cov.update({
+        "main_theorem": ("C08_cache_fresh : cache_fresh GENPOL (FULL strength: every history, every spacing) is the obligation discharged for the "
+                         "policy scraped from the current tree; the _refuted_* lemmas are vacuous for it") if full_now else
+                        "the scraped policy does NOT satisfy the premises of the full theorem: C08_cache_fresh cannot check (see proof_problems)",
+        "full_theorem_premises_hold_for_scraped_policy": bool(full_now),
         "evaluations": n_inv,
         "distinct_nontrivial": len(nontrivial),
         "rule": "evaluation = one compiler invocation of a replayed history (witnesses, corpus, 4 generated streams: mixed/tight/spaced/opts; "
